@@ -175,6 +175,9 @@ func (w *World) readSweep() {
 	}
 	for _, a := range st.Readers {
 		f := w.Fakes[a]
+		if f == nil {
+			continue // a reader slot that names no replica: C18's clause, evaluated at the settled point
+		}
 		if f.ReadsServed == servedBefore[f] {
 			w.Res.Count("read_sweeps_where_an_RW_replica_did_not_serve", 1)
 		}
